@@ -77,6 +77,17 @@ def behaviours(ctx, exe, lines, tag):
     return exs, flags
 
 
+def rejected_once(ctx, sub, module, cfg, events, env=None):
+    """One TLC run: is this single (corrupted) execution rejected ?  (binding self-test)"""
+    p = os.path.join(ctx.scratch, "selftest.ndjson")
+    with open(p, "w") as f:
+        for ev in events:
+            f.write(json.dumps(ev, separators=(",", ":")) + "\n")
+    v, r = tracecheck.validate_file(ctx.spec(sub), module, cfg, p, env=env)
+    ctx.extra["trace_tlc_runs"] = ctx.extra.get("trace_tlc_runs", 0) + 1
+    return not v.accepted
+
+
 def run(ctx):
     d = ctx.stage("Termdet")
     exe = ctx.harness("ut_replay", ["harness/usertrigger/ut_replay.c"])
@@ -154,9 +165,8 @@ def run(ctx):
     if good and not ctx.violations:
         ev = json.loads(json.dumps(good[len(good) // 2][0]))
         ev["edges"][-1][1] = ev["edges"][0][1]          # last notification goes to an already notified process
-        if not ctx.validate("Termdet", "UserTriggerTrace", "UserTriggerTrace.cfg", [[ev]], env=JVM_ENV):
+        if not rejected_once(ctx, "Termdet", "UserTriggerTrace", "UserTriggerTrace.cfg", [ev], JVM_ENV):
             raise tlc.TLCError("binding self-test: a run with a duplicated destination was accepted by UserTriggerTrace")
-        ctx.traces -= 1
     ctx.assume("a single process triggers termination (contract of the user_trigger detector)")
     ctx.assume("asserts compiled out (RelWithDebInfo); a duplicate notification is observed by the harness, not by a crash")
 
